@@ -30,7 +30,7 @@ class C16(Prop):
     design_ref = '§5 C16'
     rule = ('configurations (periods from 1 us to hours incl. sub-second and sub-millisecond parts, encodings as bytes/str/enum, lease on/off, setup payload present/absent) x transports whose '
             'provider suspends 0..3 and connect() 0..4 loop iterations x requests injected at each iteration; SETUP/RESUME frames of all flag combinations against a real server with and without '
-            'lease publisher and with on_setup raising; non-trivial = a request issued before connect() returned, a sub-second period, or a rejected setup; distinct = distinct case')
+            'lease publisher and with on_setup raising; the SETUP of the connections made by reconnect() compared with the first one; non-trivial = a request issued before connect() returned, a sub-second period, or a rejected setup; distinct = distinct case')
     assumptions = []
 
     def cases(self, rng, tier):
@@ -47,7 +47,7 @@ class C16(Prop):
                 if k == 'custom':
                     return {'as': 'bytes', 'name': bytes(97 + rng.randrange(26) for _ in range(rng.choice([1, 5, 127]))).hex()}
                 return {'as': k, 'name': rng.choice(names).hex()}
-            out.append({'kind': 'fields', 'ka': period(), 'life': period(), 'denc': enc(), 'mdenc': enc(), 'lease': rng.random() < 0.4,
+            out.append({'kind': 'fields', 'reconnects': rng.choice([0, 0, 1, 2]), 'ka': period(), 'life': period(), 'denc': enc(), 'mdenc': enc(), 'lease': rng.random() < 0.4,
                         'payload': rng.choice([None, {'d': 'aa', 'md': ''}, {'d': '', 'md': 'bbcc'}, {'d': '0102', 'md': '03'}])})
         for _ in range(n):
             p, c = rng.randint(0, 3), rng.randint(0, 4)
@@ -73,17 +73,24 @@ class C16(Prop):
         kw = dict(data_encoding=enc_value(case['denc']), metadata_encoding=enc_value(case['mdenc']), honor_lease=case['lease'])
         if case['payload'] is not None:
             kw['setup_payload'] = Payload(bytes.fromhex(case['payload']['d']), bytes.fromhex(case['payload']['md']))
-        R = clientrun.ClientRun(loop, n_transports=1, **kw)
+        R = clientrun.ClientRun(loop, n_transports=3 if case.get('reconnects') else 1, **kw)
         R.ka_ms, R.life_ms = case['ka'] / 1000.0, case['life'] / 1000.0
         c = R.build()
         await c.connect()
         await loop.settle()
         first = R.transports[0].sent[0]
+        later = []
+        for k in range(case.get('reconnects', 0)):
+            # every connection of the client opens with the same SETUP
+            await c.reconnect()
+            await loop.settle()
+            tk = R.transports[k + 1]
+            later.append(tk.sent[0][1] if tk.sent else None)
         try:
             await c.close()
         except Exception:
             pass
-        return {'dump': first[1], 'hex': first[3].hex(), 'n_setup': sum(1 for e in R.transports[0].sent if e[1].startswith('SETUP'))}
+        return {'dump': first[1], 'hex': first[3].hex(), 'n_setup': sum(1 for e in R.transports[0].sent if e[1].startswith('SETUP')), 'later': later}
 
     async def _order(self, loop, case):
         from rsocket.payload import Payload
@@ -197,6 +204,9 @@ class C16(Prop):
     def oracle(self, case, obs):
         fails = []
         if case['kind'] == 'fields':
+            for k, dump in enumerate(obs.get('later') or []):
+                if dump != obs['dump']:
+                    fails.append({'signature': 'setup-differs-after-reconnect', 'what': 'connection %d opens with %s, the first one with %s' % (k + 2, dump, obs['dump'])})
             d = dict(x.split('=', 1) for x in obs['dump'].split(' ')[1:])
             for key, us in (('ka', case['ka']), ('life', case['life'])):
                 got = int(d[key])
